@@ -614,6 +614,36 @@ pub fn main(args: &[String]) {
                 println!("WITNESS {} x={} padding_box_end={} residual={} fails={}", ["block", "flex", "grid"][kind as usize], ch.location.x, end, residual, (residual.abs() > 1e-3) as u8);
             }
         }
+        "witness2" => {
+            // block container 200 wide in a 300 wide containing block, border-left 10%: the Layout reports border.left = 30
+            // (resolved against the containing block, like the container's own size computation), the abspos code offsets
+            // the child by the border resolved against the container's OWN outer width (20): compute_inner `resolved_border`
+            for kind in 0..3i64 {
+                let mut c = gen_case(0, kind as u64);
+                let z = Dv::len(0.0);
+                c.kind = kind;
+                c.csize = [Dv::len(200.0), Dv::len(50.0)];
+                c.cpad = [z; 4];
+                c.cborder = [Dv::pct(0.1), z, z, z];
+                c.overflow = [0, 0];
+                c.scrollbar_width = 0;
+                c.cbox = 0;
+                c.avail = [(2, 300f32.to_bits()), (2, 100f32.to_bits())];
+                c.sibling = 0;
+                c.bbox = 0;
+                c.aspect = (0, 0);
+                c.inset = [z, Dv::auto(), z, Dv::auto()];
+                c.margin = [z; 4];
+                c.size = [Dv::len(10.0), Dv::len(10.0)];
+                c.min = [Dv::auto(); 2];
+                c.max = [Dv::auto(); 2];
+                c.pad = [z; 4];
+                c.border = [z; 4];
+                let (ch, ct) = c.run();
+                let residual = (ch.location.x - ch.margin.left) - ct.border.left;
+                println!("WITNESS percent_border_{} x={} reported_border_left={} residual={} fails={}", ["block", "flex", "grid"][kind as usize], ch.location.x, ct.border.left, residual, (residual.abs() > 1e-3) as u8);
+            }
+        }
         "oracle" => {
             let seed: u64 = args[1].parse().unwrap();
             let n: u64 = args[2].parse().unwrap();
